@@ -303,6 +303,14 @@ func (faultExt) InterceptField(ctx context.Context, next graphql.Resolver) (any,
 	return next(ctx)
 }
 
+func (faultExt) InterceptResponse(ctx context.Context, next graphql.ResponseHandler) *graphql.Response {
+	r := next(ctx)
+	if run := RunFrom(ctx); run != nil && run.RespMarks && r != nil {
+		run.Log(Event{E: "Resp"})
+	}
+	return r
+}
+
 func (faultExt) InterceptRootField(ctx context.Context, next graphql.RootResolver) graphql.Marshaler {
 	run := RunFrom(ctx)
 	if run == nil || len(run.DirPlan) == 0 {
@@ -557,6 +565,7 @@ func (p *Probe) execTransport(run *Run, c *Cmd, res *Result) {
 	}))
 	cctx, ccancel := context.WithCancel(context.Background())
 	run.mu.Lock()
+	run.RespMarks = true
 	run.Cancel = ccancel
 	run.mu.Unlock()
 	defer ccancel()
